@@ -381,7 +381,9 @@ def evaluate_payload_template(input, context, template):
 
             # Create range using list comprehension. Note end + 1 is used as
             # ASL spec specifies inclusive range but Python range is exclusive
-            array = [i for i in range(start, end + 1, increment)]
+            # and for a negative increment the inclusive end is end - 1.
+            stop = end + 1 if increment > 0 else end - 1
+            array = [i for i in range(start, stop, increment)]
 
             if len(array) > 1000:
                 raise IntrinsicFailure(
